@@ -7,6 +7,8 @@ C05 - A rejected indexer call changes nothing; the block protocol is enforced.
 import Brc20.Model.Node
 import Brc20.Proofs.Node
 import Brc20.Proofs.ReachProps
+import Brc20.Model.DriverE
+import Brc20.Props.C10
 
 namespace Brc20
 open Node
@@ -110,6 +112,86 @@ theorem C05.initialise_early_errors_noop (n : Node) (h : String) (ts height : Na
         have hc' : ∃ e, c = .err e := by
           rcases he with he | he <;> exact ⟨_, he⟩
         obtain ⟨e, rfl⟩ := hc'
+        have := (addTxs_err (by rw [ha])).2
+        rw [ha] at this
+        exact this
+
+/-! ### `brc20_initialise`: every error answer, not only the early ones
+
+`initialise` runs the controller deployment (`addTxs`, transaction 0) and then the finalise of that block. An error of
+the trailing finalise after an accepted deployment would leave the deployment in place. It cannot happen: the
+deployment's recorded writes exclude the block tables and the hash index, so the protocol check the finalise makes
+(`validateNextTx` with count 1, the same timestamp, the same hash, the same height) passes after an accepted
+deployment. -/
+
+theorem C05.normHash_idem (h : String) (bn : Nat) : normHash (normHash h bn) bn = normHash h bn := by
+  unfold normHash
+  by_cases h1 : h = zeroHash
+  · simp only [h1, if_true]; split <;> rfl
+  · simp only [h1, if_false]
+
+/-- after an accepted first transaction of a block whose recorded writes leave the hash index alone, the finalise of
+that block with count 1, the same timestamp and the same hash passes the protocol check: it answers no error -/
+theorem C05.fin_after_first_tx_no_error {n n1 : Node} {ts : Nat} {hash : String} {txid : Option String}
+    {devs fevs : List Ev} (ha : n.addTxs ts hash 0 txid devs (some 1) = (n1, .ok))
+    (hnorm : normHash hash n.nextHeight = hash)
+    (hno : ∀ st k v, Ev.s TId.hashToNumber.name st k v ∉ devs) (e : String) :
+    (n1.finaliseOne ts hash 1 fevs).2 ≠ .err e := by
+  intro he
+  have hok : (n.addTxs ts hash 0 txid devs (some 1)).2 = .ok := by rw [ha]
+  obtain ⟨hv, _, hlen, _, _, n', hap, hn1⟩ := addTxs_ok hok
+  have hfr := addTxs_block_frame n ts hash 0 txid devs (some 1)
+  rw [ha] at hn1 hfr
+  simp only [] at hn1 hfr
+  rw [hnorm] at hv hn1
+  obtain ⟨hw, _, hex⟩ := validateNextTx_none hv
+  have hnh : n1.nextHeight = n.nextHeight := by
+    unfold nextHeight; rw [hfr.1, hfr.2.1]
+  have hlbi : n1.lbi = bumpLbi (l0 n ts hash) (txRuns devs) := by rw [hn1]
+  have hl0 : l0 n ts hash = { waiting := 0, ts := ts, hash := hash, gasUsed := 0, logIndex := 0 } := by
+    unfold l0; rw [if_pos hw]
+  have h1w : n1.lbi.waiting = 1 := by rw [hlbi, bumpLbi_waiting, hlen 1 rfl, hl0]
+  have h1t : n1.lbi.ts = ts := by rw [hlbi, bumpLbi_ts, hl0]
+  have h1h : n1.lbi.hash = hash := by rw [hlbi, bumpLbi_hash, hl0]
+  have hidx : (n1.t .hashToNumber).latest hash = (n.t .hashToNumber).latest hash := by
+    have : n1.t = n'.t := by rw [hn1]
+    rw [this]
+    exact applyEvents_hashIndex hap (fun st k v hm => absurd hm (hno st k v))
+  have h1e : n1.blockExists hash n.nextHeight = false := by
+    rw [← hex]
+    unfold blockExists blockHashAt blockNumberOf
+    rw [hfr.1, hidx]
+  have := (finaliseOne_err he).1
+  rw [hnh, hnorm] at this
+  unfold validateNextTx at this
+  rw [if_neg (by omega), if_neg (by simp [h1t]), if_neg (by simp [h1h]), h1e] at this
+  simp at this
+
+/-- **A refused `initialise` changes nothing**, whatever the error. -/
+theorem C05.initialise_error_noop (n : Node) (h : String) (ts height : Nat) (evs : List Ev) (e : String)
+    (he : (n.initialise h ts height evs).2 = .err e) : (n.initialise h ts height evs).1 = n := by
+  unfold initialise at he ⊢
+  simp only [] at he ⊢
+  split
+  · split <;> rfl
+  · rename_i hb
+    rw [hb] at he
+    simp only [] at he
+    by_cases hh : height ≠ n.nextHeight
+    · rw [if_pos hh]
+    · rw [if_neg hh] at he ⊢
+      have hh' : height = n.nextHeight := Decidable.not_not.mp hh
+      subst hh'
+      split
+      · rename_i n1 ha
+        rw [ha] at he
+        simp only [] at he
+        exact absurd he (C05.fin_after_first_tx_no_error ha (C05.normHash_idem h n.nextHeight)
+          (by intro st k v hm; simp at hm) e)
+      · rename_i n1 c hc ha
+        rw [ha] at he
+        simp only [] at he
+        subst he
         have := (addTxs_err (by rw [ha])).2
         rw [ha] at this
         exact this
@@ -298,5 +380,224 @@ example : Reach clash.1 ∧ clash.1.lbi.waiting = 0 ∧ clash.1.latestHeight = 3
     C05.mine_error_noop clash.1 2 400 evMine4 (by decide) "exists" (by decide), by decide⟩
 
 end C05.Example
+
+/-! ### Whole histories
+
+The statements above are about one call. The property speaks about histories: "every `brc20_*` call that returns an
+error leaves the instance exactly as it was, so the history with the rejected calls removed produces identical
+results". `DriverE.step` is the model's transition function on protocol lines (the function the compiled driver folds
+over its input, and the one whose answers are compared with the real engine line by line); `DriverE.stepCore` is the
+same function before the answer is printed (`DriverE.step n l = ((stepCore n l).1, showAnswer (stepCore n l).1
+(stepCore n l).2)` by definition), so that "answered with an error" is `.inl (.err e)` and not a property of a text. -/
+
+/-- the number a protocol line carries under the key `k`, as `DriverE.stepCore` reads it -/
+def DriverE.numArg (line k : String) : Nat :=
+  (field (DriverE.kvs ((((line.splitOn " ## ").headD "").trimAscii.toString.splitOn " ").filter (· ≠ ""))) k).toNat!
+
+/-- **One line, any operation: an error answer leaves the node as it was.** For every node (reachable or not) and
+every protocol line (any operation word, any arguments, any recorded events): if the line is answered with an error,
+the node after the line is the node before it. The only side condition is the one of `C05.mine_error_noop`, on `mine`
+lines alone: the block numbers of the call fit in 32 bytes (they are `u64` in the implementation). `init` lines need
+no condition (`C05.initialise_error_noop`). -/
+theorem C05.step_error_noop (n : Node) (line : String) (e : String)
+    (he : (DriverE.stepCore n line).2 = .inl (.err e))
+    (hmine : DriverE.opOf line = "mine" → n.nextHeight + DriverE.numArg line "count" < 16 ^ 64) :
+    (DriverE.stepCore n line).1 = n := by
+  have key : ∀ r, DriverE.stepCore n line = r → r.2 = .inl (.err e) → r.1 = n := by
+    intro r hr
+    unfold DriverE.opOf DriverE.numArg at hmine
+    unfold DriverE.stepCore at hr
+    extract_lets parts head evs ws f g num fin op dataFirst selErr pkErr dec at hr
+    split at hr
+    · subst hr; intro h; cases h
+    · subst hr; intro h
+      exact C05.initialise_error_noop n _ _ _ _ e (Sum.inl.inj h)
+    · rename_i hop
+      subst hr; intro h
+      simp only [fin] at h ⊢
+      by_cases hc : num "count" = 0 ∧ n.lbi.waiting = 0
+      · rw [if_pos hc]
+      · rw [if_neg hc] at h ⊢
+        exact C05.mine_error_noop n _ _ _ (hmine hop) e (Sum.inl.inj h)
+    iterate 4
+      · split at hr
+        · subst hr; intro _; rfl
+        split at hr
+        · subst hr; intro _; rfl
+        split at hr
+        · subst hr; intro _; rfl
+        · subst hr; intro h
+          exact C05.addTxs_error_noop n _ _ _ _ _ _ e (Sum.inl.inj h)
+    · split at hr
+      · subst hr; intro _; rfl
+      · subst hr; intro h
+        exact C05.addRawTx_error_noop n _ _ _ _ _ _ e (Sum.inl.inj h)
+    · subst hr; intro h
+      exact C05.finalise_error_noop n _ _ _ _ e (Sum.inl.inj h)
+    · subst hr; intro h
+      exact C05.commit_error_noop n e (Sum.inl.inj h)
+    · subst hr; intro h; cases (Sum.inl.inj h)
+    · subst hr; intro h; cases (Sum.inl.inj h)
+    · subst hr; intro h
+      exact C05.reorg_error_noop n _ e (Sum.inl.inj h)
+    · subst hr; intro _; rfl
+    · subst hr; intro h; cases h
+    · split at hr <;> (subst hr; intro h; cases h)
+    · subst hr; intro h; cases h
+  exact key _ rfl he
+
+/-- the same on the function the driver runs, with the text of the answer: the error, then the digest of the
+unchanged node -/
+theorem C05.step_error_answer (n : Node) (line : String) (e : String)
+    (he : (DriverE.stepCore n line).2 = .inl (.err e))
+    (hmine : DriverE.opOf line = "mine" → n.nextHeight + DriverE.numArg line "count" < 16 ^ 64) :
+    DriverE.step n line = (n, "err:" ++ e ++ " | " ++ DriverE.digest n) := by
+  have hn := C05.step_error_noop n line e he hmine
+  show ((DriverE.stepCore n line).1, DriverE.showAnswer (DriverE.stepCore n line).1 (DriverE.stepCore n line).2) = _
+  rw [he, hn]
+  rfl
+
+/-- the line is answered with an error when the node is `n` -/
+def DriverE.rejected (n : Node) (line : String) : Bool :=
+  match (DriverE.stepCore n line).2 with
+  | .inl (.err _) => true
+  | _ => false
+
+theorem DriverE.rejected_iff (n : Node) (line : String) :
+    DriverE.rejected n line = true ↔ ∃ e, (DriverE.stepCore n line).2 = .inl (.err e) := by
+  unfold DriverE.rejected
+  split
+  · rename_i e h; exact ⟨fun _ => ⟨e, h⟩, fun _ => rfl⟩
+  · rename_i h
+    exact ⟨fun x => (by cases x), fun ⟨e, he⟩ => absurd he (h e)⟩
+
+/-- the side condition of `C05.mine_error_noop` along a history run from `n`: every *rejected* `mine` line asks for
+block numbers that fit in 32 bytes (a Boolean, so that it can be evaluated on a concrete history) -/
+def DriverE.covered : Node → List String → Bool
+  | _, [] => true
+  | n, l :: ls =>
+    (!(DriverE.rejected n l && DriverE.opOf l == "mine") || decide (n.nextHeight + DriverE.numArg l "count" < 16 ^ 64))
+      && DriverE.covered (DriverE.step n l).1 ls
+
+/-- the sub-history of the lines that are not rejected when the history is run from `n` (the run goes on from the node
+the full history reaches, whatever the rejected line did to it) -/
+def DriverE.accepted : Node → List String → List String
+  | _, [] => []
+  | n, l :: ls =>
+    if DriverE.rejected n l then DriverE.accepted (DriverE.step n l).1 ls
+    else l :: DriverE.accepted (DriverE.step n l).1 ls
+
+/-- the answers those lines get in the full history, in order -/
+def DriverE.acceptedAnswers : Node → List String → List String
+  | _, [] => []
+  | n, l :: ls =>
+    if DriverE.rejected n l then DriverE.acceptedAnswers (DriverE.step n l).1 ls
+    else (DriverE.step n l).2 :: DriverE.acceptedAnswers (DriverE.step n l).1 ls
+
+/-- whether each line of the history is rejected, in order -/
+def DriverE.rejectedFlags : Node → List String → List Bool
+  | _, [] => []
+  | n, l :: ls => DriverE.rejected n l :: DriverE.rejectedFlags (DriverE.step n l).1 ls
+
+/-- **Rejected calls can be removed from any history**: for every node and every list of protocol lines, the history
+with the rejected lines removed ends in the same node (hence the same digest and the same database contents after a
+commit) and gives every remaining line the answer it gets in the full history. Side condition: `DriverE.covered`
+(rejected `mine` lines only, see there). -/
+theorem C05.history_rejected_removable (lines : List String) :
+    ∀ n : Node, DriverE.covered n lines = true →
+      (DriverE.run n (DriverE.accepted n lines)).1 = (DriverE.run n lines).1 ∧
+      (DriverE.run n (DriverE.accepted n lines)).2 = DriverE.acceptedAnswers n lines := by
+  induction lines with
+  | nil => intro n _; exact ⟨rfl, rfl⟩
+  | cons l ls ih =>
+    intro n hc
+    simp only [DriverE.covered, Bool.and_eq_true, Bool.or_eq_true, Bool.not_eq_true', Bool.and_eq_false_iff,
+      decide_eq_true_eq] at hc
+    obtain ⟨hl, hrest⟩ := hc
+    by_cases hr : DriverE.rejected n l = true
+    · obtain ⟨e, he⟩ := (DriverE.rejected_iff n l).mp hr
+      have hn : (DriverE.step n l).1 = n := by
+        apply C05.step_error_noop n l e he
+        intro hop
+        rcases hl with hl | hl
+        · rcases hl with hl | hl
+          · rw [hr] at hl; cases hl
+          · simp [hop] at hl
+        · exact hl
+      simp only [DriverE.accepted, hr, if_true, DriverE.run, DriverE.acceptedAnswers]
+      rw [hn] at hrest ⊢
+      exact ih n hrest
+    · have hr' : DriverE.rejected n l = false := by simpa using hr
+      simp only [DriverE.accepted, hr', Bool.false_eq_true, if_false, DriverE.run, DriverE.acceptedAnswers]
+      have := ih (DriverE.step n l).1 hrest
+      exact ⟨this.1, by rw [this.2]⟩
+
+/-- the answers of the kept lines are the answers at the same positions of the full history -/
+theorem C05.acceptedAnswers_eq_filter (lines : List String) :
+    ∀ n : Node, DriverE.acceptedAnswers n lines =
+      (((DriverE.rejectedFlags n lines).zip (DriverE.run n lines).2).filter (fun p => !p.1)).map (·.2) := by
+  induction lines with
+  | nil => intro n; rfl
+  | cons l ls ih =>
+    intro n
+    by_cases hr : DriverE.rejected n l = true
+    · simp only [DriverE.acceptedAnswers, hr, if_true, DriverE.run, DriverE.rejectedFlags, List.zip_cons_cons,
+        List.filter_cons, Bool.not_true, Bool.false_eq_true, if_false]
+      exact ih _
+    · have hr' : DriverE.rejected n l = false := by simpa using hr
+      simp only [DriverE.acceptedAnswers, hr', Bool.false_eq_true, if_false, DriverE.run, DriverE.rejectedFlags,
+        List.zip_cons_cons, List.filter_cons, Bool.not_false, if_true, List.map_cons]
+      rw [ih]
+
+/-- and the kept lines are the lines at those positions -/
+theorem C05.accepted_eq_filter (lines : List String) :
+    ∀ n : Node, DriverE.accepted n lines =
+      (((DriverE.rejectedFlags n lines).zip lines).filter (fun p => !p.1)).map (·.2) := by
+  induction lines with
+  | nil => intro n; rfl
+  | cons l ls ih =>
+    intro n
+    by_cases hr : DriverE.rejected n l = true
+    · simp only [DriverE.accepted, hr, if_true, DriverE.rejectedFlags, List.zip_cons_cons,
+        List.filter_cons, Bool.not_true, Bool.false_eq_true, if_false]
+      exact ih _
+    · have hr' : DriverE.rejected n l = false := by simpa using hr
+      simp only [DriverE.accepted, hr', Bool.false_eq_true, if_false, DriverE.rejectedFlags,
+        List.zip_cons_cons, List.filter_cons, Bool.not_false, if_true, List.map_cons]
+      rw [ih]
+
+namespace C05.History
+
+/-- the recorded writes of the finalise of block `k` with hash `h` -/
+def blk (k : Nat) (h : String) : String :=
+  " ## S block_number_to_block " ++ toString k ++ " " ++ hexN 16 k ++ " b" ++ toString k ++
+  " ## S block_number_to_raw_block " ++ toString k ++ " " ++ hexN 16 k ++ " r" ++ toString k ++
+  " ## S block_number_to_hash " ++ toString k ++ " " ++ hexN 16 k ++ " " ++ h ++
+  " ## S block_hash_to_number " ++ toString k ++ " " ++ h ++ " " ++ hexN 16 k
+
+/-- a history on the empty node with four rejected calls: a finalise with a wrong count, a reorg above the tip, a
+`mine 2` whose second block would get a hash in use (finding F16), a `mine 1` whose block would get that hash -/
+def hist : List String :=
+  [ "fin ts=1 hash=0x00 count=3",
+    "mine count=1 ts=300" ++ blk 0 (generatedHash 0),
+    "reorg n=7",
+    "fin ts=350 hash=0x" ++ generatedHash 2 ++ " count=0" ++ blk 1 (generatedHash 2),
+    "mine count=2 ts=400" ++ blk 2 (generatedHash 2),
+    "commit",
+    "mine count=1 ts=400" ++ blk 2 (generatedHash 2) ]
+
+-- non-vacuity (evaluated, a test: string functions do not reduce in the kernel): the side condition holds on this
+-- history, four of its lines are rejected (two of them `mine` lines), three are kept; and the statement of the theorem
+-- evaluated on it
+#guard DriverE.covered {} hist = true
+#guard DriverE.rejectedFlags {} hist = [true, false, true, false, true, false, true]
+#guard ((DriverE.run {} hist).2.map (fun a => (a.splitOn " | ").headD "")) =
+  ["err:idx", "ok", "err:above", "ok", "err:exists", "ok", "err:exists"]
+#guard DriverE.accepted {} hist = [hist[1]!, hist[3]!, hist[5]!]
+#guard (DriverE.run {} (DriverE.accepted {} hist)).2 = DriverE.acceptedAnswers {} hist
+#guard DriverE.digest (DriverE.run {} (DriverE.accepted {} hist)).1 = DriverE.digest (DriverE.run {} hist).1
+#guard (DriverE.run {} hist).1.nextHeight = 2
+
+end C05.History
 
 end Brc20
